@@ -25,7 +25,7 @@ ASSUMPTIONS = [
 BUDGET = {"quick": 70, "thorough": 800}
 ROUNDS = {"thorough": 10}
 FLOORS = {"overlay.C06.judged": {"quick": 100, "thorough": 1500}, "overlay.C06.branch_lengths_judged": {"quick": 100, "thorough": 1500}, "validity_checks": {"quick": 1500, "thorough": 15000}, "round_trips_single": 300, "round_trips_batched": 300,
-          "moves": 200, "moves_smooth_max": 20, "smooth_max_round_trips": 40, "keep_branch_lengths_checks": 100, "keep_kinds": 3, "api_inplace_updates": 100, "float32_default_checks": 40, "postorder_option_checks": 20, "heterochronous": 300}
+          "moves": 200, "moves_smooth_max": 20, "smooth_max_round_trips": 40, "keep_branch_lengths_checks": 100, "keep_kinds": 3, "transformed_inputs": 100, "api_inplace_updates": 100, "float32_default_checks": 40, "postorder_option_checks": 20, "heterochronous": 300}
 
 
 def EXHAUSTIVE(tier):
@@ -56,6 +56,8 @@ def _cases(tier, seed):
                 c["postorder_option"] = True
             elif j % 23 == 5:
                 c["float32_default"] = True
+            if c["move"] != "none" and j % 4 == 1:
+                c["transformed_inputs"] = True
             if c["move"] != "none" and param == "shift" and (j // 15) % 2 == 0:
                 c["smooth_k"] = float(np.round(rng.uniform(2.0, 60.0), 3))
             if batch == 0 and j % 24 in (2, 15):
@@ -181,7 +183,22 @@ def _run_case(case):
         return {"violations": V, "counters": C, "fingerprint": None, "sample": None}
     if case.get("keep"):
         return _run_keep(case, V, C)
-    objs, dic = tt.load([phylo.taxa_json(case), gt.tree_json(case)])
+    tj = gt.tree_json(case)
+    if case.get("transformed_inputs"):
+        # ratios / root height / increments given as transformed parameters over unconstrained ones (how every model written by
+        # torchtree-cli looks): a move has to carry them along
+        def wrap(key, transform, inv):
+            pj = tj[key]
+            tj[key] = {"id": pj["id"], "type": "TransformedParameter", "transform": transform,
+                       "x": dict(pj, id=pj["id"] + ".unres", tensor=inv(np.asarray(pj["tensor"], dtype=float)).tolist())}
+
+        if case["param"] == "ratio":
+            wrap("ratios", "torch.distributions.SigmoidTransform", lambda r: np.log(r) - np.log1p(-r))
+            wrap("root_height", "torch.distributions.ExpTransform", np.log)
+        else:
+            wrap("shifts", "torch.distributions.ExpTransform", np.log)
+        C["transformed_inputs"] = 1
+    objs, dic = tt.load([phylo.taxa_json(case), tj])
     tree = dic["tree"]
     kind0 = type(tree.transform).__name__
 
